@@ -1,4 +1,5 @@
 """C12 — URL <-> LRU conversion is lossless, serialization is invertible."""
+import re
 from urllib.parse import urlsplit
 from pysx.lib import memo_call
 from ural.lru import url_to_lru, lru_to_url, lru_stems, serialize_lru, unserialize_lru
@@ -22,17 +23,29 @@ def _same_components(a, b, suffix_aware):
     return sa.path == sb.path and sa.query == sb.query and sa.fragment == sb.fragment
 
 
-def _odd_brackets(u):
-    return u.count("[") > 1 or u.count("]") > 1
+_BRACKETED = re.compile(r"^(?:[^\[\]]*@)?\[[^\[\]]*\](?::[0-9]*)?$")
 
 
-def url_round_trip(u, suffix_aware, via_stems):
-    if "|" in u or _odd_brackets(u):
-        return True           # '|' excluded by the property; nested brackets are not an IP literal
+def _scope(u):
+    """the reference reading of u, or None when u is outside the property's grammar"""
+    if "|" in u:
+        return None           # excluded by the property
     try:
         ref = _parts(ensure_protocol(u))
     except ValueError:
-        return True           # not a parseable url
+        return None           # not a parseable url
+    s = ref[0]
+    if ("[" in s.netloc or "]" in s.netloc) and not _BRACKETED.match(s.netloc):
+        return None           # stray brackets outside one well-formed [literal]: not an IP literal
+    if s.netloc == "" and s.path != "" and not s.path.startswith("/"):
+        return None           # no authority and a rootless path ('L//x', '://x'): the grammar's urls have a host
+    return ref
+
+
+def url_round_trip(u, suffix_aware, via_stems):
+    ref = _scope(u)
+    if ref is None:
+        return True
     if via_stems:
         back = lru_to_url(lru_stems(u, suffix_aware=suffix_aware))
     else:
@@ -45,22 +58,14 @@ def url_round_trip(u, suffix_aware, via_stems):
 
 
 def lru_is_stable(u, suffix_aware):
-    if "|" in u or _odd_brackets(u):
-        return True
-    try:
-        _parts(ensure_protocol(u))
-    except ValueError:
+    if _scope(u) is None:
         return True
     lru = memo_call(url_to_lru, u, suffix_aware)
     return lru.endswith("|") and url_to_lru(lru_to_url(lru), suffix_aware) == lru
 
 
 def serialization_inverts(u, suffix_aware):
-    if "|" in u or _odd_brackets(u):
-        return True
-    try:
-        _parts(ensure_protocol(u))
-    except ValueError:
+    if _scope(u) is None:
         return True
     stems = lru_stems(u, suffix_aware=suffix_aware)
     s = serialize_lru(stems)
